@@ -4,23 +4,654 @@
 From GF Require Import Base.Bytes Base.SortedMap Model.Mem Model.BucketName Model.Handlers
   Proofs.BytesFacts Proofs.SortedMapFacts Proofs.MemProofs Proofs.MemInvDef.
 
-Lemma inv_init : Inv init.
+From Coq Require Import Lia ZifyBool ZifyN.
+
+(* ------------------------------------------------------------------------------------ *)
+(* extra facts about sorted maps                                                        *)
+(* ------------------------------------------------------------------------------------ *)
+Section SMExtra.
+Context {V : Type}.
+Notation map_ := (list (list N * V)).
+
+Lemma in_set_inv k v k' v' (m : map_) :
+  In (k, v) (sm_set k' v' m) -> (k, v) = (k', v') \/ In (k, v) m.
 Proof.
-Admitted.
+  induction m as [|[k2 v2] m IH]; cbn.
+  - intros [H|[]]. left. symmetry. exact H.
+  - destruct (beq k' k2) eqn:E.
+    + cbn. intros [H|H]; [left; symmetry; exact H|right; right; exact H].
+    + destruct (bltb k' k2); cbn.
+      * intros [H|H]; [left; symmetry; exact H|right; exact H].
+      * intros [H|H]; [right; left; exact H|]. destruct (IH H) as [H1|H1]; auto.
+Qed.
+
+Lemma in_del_inv x k (m : map_) : In x (sm_del k m) -> In x m.
+Proof.
+  induction m as [|[k2 v2] m IH]; cbn; [trivial|].
+  destruct (beq k k2); cbn; [auto|]. intros [H|H]; auto.
+Qed.
+
+Lemma in_after_inv x k (m : map_) : In x (sm_after k m) -> In x m.
+Proof.
+  induction m as [|[k2 v2] m IH]; cbn; [trivial|].
+  destruct (bleb k2 k); cbn; [auto|]. intros [H|H]; auto.
+Qed.
+
+Lemma get_in k v (m : map_) : sm_get k m = Some v -> In (k, v) m.
+Proof.
+  induction m as [|[k2 v2] m IH]; cbn; [discriminate|].
+  destruct (beq k k2) eqn:E.
+  - intros H. inversion H; subst. apply beq_eq in E. subst. left; reflexivity.
+  - intros H. right. auto.
+Qed.
+
+Lemma lb_in k k' v (m : map_) : lb k m -> In (k', v) m -> bltb k k' = true.
+Proof.
+  induction m as [|[k2 v2] m IH]; cbn; [intros _ []|].
+  intros [H1 H2] [H|H]; [inversion H; subst; exact H1|auto].
+Qed.
+
+Lemma in_get k v (m : map_) : sorted m -> In (k, v) m -> sm_get k m = Some v.
+Proof.
+  induction m as [|[k2 v2] m IH]; cbn; [intros _ []|].
+  intros [H1 H2] [H|H].
+  - inversion H; subst. rewrite beq_refl. reflexivity.
+  - destruct (beq k k2) eqn:E; [|auto].
+    apply beq_eq in E; subst. pose proof (lb_in _ _ _ _ H1 H) as H0.
+    rewrite bltb_irrefl in H0. discriminate.
+Qed.
+
+Lemma set_same k v (m : map_) : sorted m -> sm_get k m = Some v -> sm_set k v m = m.
+Proof.
+  induction m as [|[k2 v2] m IH]; cbn; [discriminate|].
+  intros [H1 H2]. destruct (beq k k2) eqn:E.
+  - intros H. inversion H; subst. apply beq_eq in E. subst. reflexivity.
+  - intros H. destruct (bltb k k2) eqn:L.
+    + apply get_in in H. pose proof (lb_in _ _ _ _ H1 H) as H0.
+      apply bltb_asym in H0. congruence.
+    + rewrite IH; auto.
+Qed.
+
+Lemma set_idem k v (m : map_) : sm_set k v (sm_set k v m) = sm_set k v m.
+Proof.
+  induction m as [|[k2 v2] m IH]; cbn.
+  - rewrite beq_refl. reflexivity.
+  - destruct (beq k k2) eqn:E; cbn.
+    + rewrite beq_refl. reflexivity.
+    + destruct (bltb k k2) eqn:L; cbn.
+      * rewrite beq_refl. reflexivity.
+      * rewrite E, L, IH. reflexivity.
+Qed.
+End SMExtra.
+
+(* ------------------------------------------------------------------------------------ *)
+(* version lists                                                                        *)
+(* ------------------------------------------------------------------------------------ *)
+
+Lemma vers_ok_mono top top' l : vers_ok top l -> (top <= top')%N -> vers_ok top' l.
+Proof.
+  induction l as [|v l IH]; cbn [vers_ok]; [trivial|].
+  intros (H1 & H2 & H3) Hle. split; [lia|]. split; [exact H2|auto].
+Qed.
+
+Lemma obj_ok_mono n n' o : obj_ok n o -> (n <= n')%N -> obj_ok n' o.
+Proof.
+  intros (cur & H1 & H2 & H3 & H4 & H5) Hle. exists cur.
+  split; [exact H1|]. split; [lia|]. auto.
+Qed.
+
+Lemma vers_insert_ok c top' l :
+  vers_ok (vd_vid c) l -> (vd_vid c < top')%N -> vers_ok top' (vers_insert c l).
+Proof.
+  induction l as [|w l IH]; cbn [vers_ok vers_insert].
+  - intros _ H. auto.
+  - intros (H1 & H2 & H3) Hlt.
+    destruct (N.eqb_spec (vd_vid c) (vd_vid w)) as [E|E]; [lia|].
+    destruct (N.ltb_spec (vd_vid c) (vd_vid w)) as [L|L]; [lia|].
+    cbn [vers_ok]. split; [lia|]. split; [|auto].
+    destruct l as [|w' l']; cbn [vers_insert]; [exact H1|].
+    cbn [vers_ok] in H3. destruct H3 as (H3 & _).
+    destruct (N.eqb_spec (vd_vid c) (vd_vid w')) as [E'|E']; [lia|].
+    destruct (N.ltb_spec (vd_vid c) (vd_vid w')) as [L'|L']; [lia|]. exact H2.
+Qed.
+
+Lemma Forall_vers_insert (P : vdata -> Prop) c l :
+  P c -> Forall P l -> Forall P (vers_insert c l).
+Proof.
+  intros Hc. induction l as [|w l IH]; cbn [vers_insert]; intros H.
+  - constructor; auto.
+  - inversion H; subst.
+    destruct (N.eqb (vd_vid c) (vd_vid w)); [constructor; auto|].
+    destruct (N.ltb (vd_vid c) (vd_vid w)); constructor; auto.
+Qed.
+
+Lemma vers_last_cons2 v w l : vers_last (v :: w :: l) = vers_last (w :: l).
+Proof. reflexivity. Qed.
+
+Lemma vers_last_ok top l nv :
+  vers_ok top l -> vers_last l = Some nv ->
+  (vd_vid nv < top)%N /\ vers_ok (vd_vid nv) (vers_but_last l) /\ In nv l /\
+  match l with [] => True | v :: _ => (vd_vid v <= vd_vid nv)%N end.
+Proof.
+  unfold vers_but_last.
+  induction l as [|v l IH]; [discriminate|].
+  destruct l as [|w l'].
+  - cbn. intros (H1 & _) H. inversion H; subst. repeat split; auto. lia.
+  - rewrite vers_last_cons2. intros (H1 & H2 & H3) Hl.
+    destruct (IH H3 Hl) as (I1 & I2 & I3 & I4).
+    split; [exact I1|]. split; [|split; [right; exact I3|lia]].
+    change (removelast (v :: w :: l')) with (v :: removelast (w :: l')).
+    cbn [vers_ok]. split; [lia|]. split; [|exact I2].
+    destruct l' as [|w2 l2]; [cbn; trivial|].
+    change (removelast (w :: w2 :: l2)) with (w :: removelast (w2 :: l2)). exact H2.
+Qed.
+
+Lemma Forall_removelast {A} (P : A -> Prop) l : Forall P l -> Forall P (removelast l).
+Proof.
+  induction l as [|x l IH]; [trivial|]. intros H. inversion H; subst.
+  destruct l as [|y l']; [constructor|].
+  change (removelast (x :: y :: l')) with (x :: removelast (y :: l')). constructor; auto.
+Qed.
+
+Lemma vers_del_ok top id l : vers_ok top l -> vers_ok top (vers_del id l).
+Proof.
+  induction l as [|w l IH]; cbn [vers_ok vers_del]; [trivial|].
+  intros (H1 & H2 & H3). destruct (N.eqb id (vd_vid w)); [exact H3|].
+  cbn [vers_ok]. split; [exact H1|]. split; [|auto].
+  destruct l as [|w' l']; cbn [vers_del]; [trivial|].
+  destruct (N.eqb id (vd_vid w')); [|exact H2].
+  cbn [vers_ok] in H3. destruct H3 as (_ & H4 & _).
+  destruct l' as [|w2 l2]; [trivial|lia].
+Qed.
+
+Lemma Forall_vers_del (P : vdata -> Prop) id l : Forall P l -> Forall P (vers_del id l).
+Proof.
+  induction l as [|w l IH]; cbn [vers_del]; [trivial|]. intros H. inversion H; subst.
+  destruct (N.eqb id (vd_vid w)); [assumption|constructor; auto].
+Qed.
+
+(* ------------------------------------------------------------------------------------ *)
+(* bucket level                                                                         *)
+(* ------------------------------------------------------------------------------------ *)
+
+Lemma bucket_ok_mono n n' bk : bucket_ok n bk -> (n <= n')%N -> bucket_ok n' bk.
+Proof.
+  intros (Hs & Ho & Hn) Hle. split; [exact Hs|]. split; [|exact Hn].
+  intros k o Hin. eapply obj_ok_mono; [eapply Ho; exact Hin|exact Hle].
+Qed.
+
+Lemma bucket_ok_get n bk k o : bucket_ok n bk -> sm_get k (b_objs bk) = Some o -> obj_ok n o.
+Proof. intros (_ & Ho & _) H. eapply Ho. apply get_in. exact H. Qed.
+
+Lemma bucket_ok_empty n v : bucket_ok n {| b_ver := v; b_objs := [] |}.
+Proof.
+  split; [exact I|]. split.
+  - intros k o [].
+  - intros _ k o [].
+Qed.
+
+Lemma bucket_put_ok next bk k mk body m bk' next' id :
+  bucket_ok next bk -> bucket_put bk next k mk body m = (bk', next', id) ->
+  bucket_ok next' bk' /\ (next <= next')%N.
+Proof.
+  intros Hok H. unfold bucket_put in H. inversion H; subst; clear H.
+  split; [|lia]. pose proof Hok as (Hs & Ho & Hn).
+  split; [cbn [b_objs]; apply sorted_set; exact Hs|]. split.
+  - intros k' o' Hin. cbn [b_objs] in Hin. apply in_set_inv in Hin. destruct Hin as [Heq|Hin].
+    2:{ eapply obj_ok_mono; [eapply Ho; exact Hin|lia]. }
+    inversion Heq; subst; clear Heq.
+    eexists. split; [cbn [o_data]; reflexivity|]. cbn [o_data o_vers vd_vid]. split; [lia|]. split; [lia|].
+    destruct (sm_get k (b_objs bk)) as [o|] eqn:Eg.
+    2:{ cbn. auto. }
+    destruct (bucket_ok_get _ _ _ _ Hok Eg) as (cur & Hd & Hle & Hpos & Hv & Hf).
+    rewrite Hd. destruct (is_enabled (b_ver bk) || negb (vd_null cur)).
+    + split; [apply vers_insert_ok; [exact Hv|lia]|apply Forall_vers_insert; assumption].
+    + split; [eapply vers_ok_mono; [exact Hv|lia]|exact Hf].
+  - intros Hv0 k' o' Hin. cbn [b_ver] in Hv0. cbn [b_objs] in Hin.
+    apply in_set_inv in Hin. destruct Hin as [Heq|Hin]; [|exact (Hn Hv0 _ _ Hin)].
+    inversion Heq; subst; clear Heq. cbn [o_data o_vers]. rewrite Hv0. cbn [is_enabled negb orb].
+    split.
+    + destruct (sm_get k (b_objs bk)) as [o|] eqn:Eg; [|reflexivity].
+      destruct (Hn Hv0 k o (get_in _ _ _ Eg)) as [Hnil Hnull].
+      destruct (o_data o) as [cur|]; [|exact Hnil].
+      rewrite (Hnull cur eq_refl). cbn. exact Hnil.
+    + intros cur Hc. inversion Hc; subst. reflexivity.
+Qed.
+
+Lemma bucket_put_ver next bk k mk body m :
+  b_ver (fst (fst (bucket_put bk next k mk body m))) = b_ver bk.
+Proof. reflexivity. Qed.
+
+Lemma drop_current_ok next bk k o :
+  bucket_ok next bk -> sm_get k (b_objs bk) = Some o -> bucket_ok next (drop_current bk k o).
+Proof.
+  intros Hok Eg. pose proof Hok as (Hs & Ho & Hn).
+  destruct (bucket_ok_get _ _ _ _ Hok Eg) as (cur & Hd & Hle & Hpos & Hv & Hf).
+  unfold drop_current. destruct (vers_last (o_vers o)) as [nv|] eqn:El.
+  - destruct (vers_last_ok _ _ _ Hv El) as (L1 & L2 & L3 & _).
+    split; [cbn [b_objs]; apply sorted_set; exact Hs|]. split.
+    + intros k' o' Hin. cbn [b_objs] in Hin. apply in_set_inv in Hin.
+      destruct Hin as [Heq|Hin]; [|eapply Ho; exact Hin].
+      inversion Heq; subst; clear Heq. exists nv. cbn [o_data o_vers].
+      split; [reflexivity|]. split; [lia|]. split.
+      * rewrite Forall_forall in Hf. apply Hf. exact L3.
+      * split; [exact L2|]. apply Forall_removelast. exact Hf.
+    + intros Hv0 k' o' Hin. cbn [b_ver] in Hv0.
+      destruct (Hn Hv0 k o (get_in _ _ _ Eg)) as [Hnil _].
+      rewrite Hnil in El. discriminate.
+  - split; [cbn [b_objs]; apply sorted_del; exact Hs|]. split.
+    + intros k' o' Hin. cbn [b_objs] in Hin. apply in_del_inv in Hin. eapply Ho; exact Hin.
+    + intros Hv0 k' o' Hin. cbn [b_ver] in Hv0. cbn [b_objs] in Hin.
+      apply in_del_inv in Hin. exact (Hn Hv0 _ _ Hin).
+Qed.
+
+Lemma bucket_rm_ok next bk k bk' next' r :
+  bucket_ok next bk -> bucket_rm bk next k = (bk', next', r) ->
+  bucket_ok next' bk' /\ (next <= next')%N.
+Proof.
+  intros Hok. unfold bucket_rm.
+  destruct (sm_get k (b_objs bk)) as [o|] eqn:Eg.
+  2:{ intros H; inversion H; subst. split; [exact Hok|lia]. }
+  cbv zeta.
+  match goal with |- context [if ?c then _ else _] => destruct c eqn:Ek end.
+  - destruct (bucket_put bk next k true [] []) as [[bk1 n1] id1] eqn:Ep.
+    intros H; inversion H; subst; clear H. eapply bucket_put_ok; eassumption.
+  - intros H; inversion H; subst; clear H. split; [|lia]. apply drop_current_ok; assumption.
+Qed.
+
+Lemma bucket_rm_version_ok next bk k id bk' r :
+  bucket_ok next bk -> bucket_rm_version bk k id = (bk', r) -> bucket_ok next bk'.
+Proof.
+  intros Hok. unfold bucket_rm_version.
+  destruct (sm_get k (b_objs bk)) as [o|] eqn:Eg.
+  2:{ intros H; inversion H; subst. exact Hok. }
+  pose proof Hok as (Hs & Ho & Hn).
+  destruct (bucket_ok_get _ _ _ _ Hok Eg) as (cur & Hd & Hle & Hpos & Hv & Hf).
+  rewrite Hd. destruct (N.eqb (vd_vid cur) id).
+  { intros H; inversion H; subst; clear H. apply drop_current_ok; assumption. }
+  destruct (vers_get id (o_vers o)) as [v|] eqn:Ev.
+  2:{ intros H; inversion H; subst. exact Hok. }
+  intros H; inversion H; subst; clear H.
+  split; [cbn [b_objs]; apply sorted_set; exact Hs|]. split.
+  - intros k' o' Hin. cbn [b_objs] in Hin. apply in_set_inv in Hin.
+    destruct Hin as [Heq|Hin]; [|eapply Ho; exact Hin].
+    inversion Heq; subst; clear Heq. exists cur. cbn [o_data o_vers].
+    split; [reflexivity|]. split; [exact Hle|]. split; [exact Hpos|].
+    split; [apply vers_del_ok; exact Hv|apply Forall_vers_del; exact Hf].
+  - intros Hv0 k' o' Hin. cbn [b_ver] in Hv0.
+    destruct (Hn Hv0 k o (get_in _ _ _ Eg)) as [Hnil _].
+    rewrite Hnil in Ev. discriminate.
+Qed.
+
+(* ------------------------------------------------------------------------------------ *)
+(* backend (state) level                                                                *)
+(* ------------------------------------------------------------------------------------ *)
+
+Lemma inv_get_bucket s b bk : Inv s -> get_bucket s b = Some bk -> bucket_ok (st_next s) bk.
+Proof. intros (_ & H) Hg. eapply H. apply get_in. exact Hg. Qed.
+
+Lemma inv_set s b bk n' :
+  Inv s -> (st_next s <= n')%N -> bucket_ok n' bk ->
+  Inv {| st_buckets := sm_set b bk (st_buckets s); st_next := n' |}.
+Proof.
+  intros (Hs & Hb) Hle Hok. split; cbn [st_buckets st_next].
+  - apply sorted_set. exact Hs.
+  - intros b' bk'' Hin. apply in_set_inv in Hin. destruct Hin as [Heq|Hin].
+    + inversion Heq; subst. exact Hok.
+    + eapply bucket_ok_mono; [eapply Hb; exact Hin|exact Hle].
+Qed.
+
+Lemma inv_init : Inv init.
+Proof. split; [exact I|]. intros b bk []. Qed.
+
+Lemma create_bucket_inv s b : Inv s -> Inv (fst (create_bucket s b)).
+Proof.
+  intros Hi. unfold create_bucket. destruct (get_bucket s b); [exact Hi|].
+  cbn [fst]. unfold set_bucket. apply inv_set; [exact Hi|lia|apply bucket_ok_empty].
+Qed.
+
+Lemma delete_bucket_inv s b : Inv s -> Inv (fst (delete_bucket s b)).
+Proof.
+  intros Hi. unfold delete_bucket. destruct (get_bucket s b) as [bk|]; [|exact Hi].
+  destruct (b_objs bk); [|exact Hi]. cbn [fst]. destruct Hi as (Hs & Hb).
+  split; cbn [st_buckets st_next].
+  - apply sorted_del. exact Hs.
+  - intros b' bk' Hin. apply in_del_inv in Hin. eapply Hb; exact Hin.
+Qed.
+
+Lemma put_object_inv s b k body m : Inv s -> Inv (fst (put_object s b k body m)).
+Proof.
+  intros Hi. unfold put_object. destruct (get_bucket s b) as [bk|] eqn:Eb; [|exact Hi].
+  destruct (bucket_put bk (st_next s) k false body m) as [[bk' n'] id] eqn:Ep. cbn [fst].
+  destruct (bucket_put_ok _ _ _ _ _ _ _ _ _ (inv_get_bucket _ _ _ Hi Eb) Ep) as [H1 H2].
+  apply inv_set; assumption.
+Qed.
+
+Lemma delete_object_inv s b k : Inv s -> Inv (fst (delete_object s b k)).
+Proof.
+  intros Hi. unfold delete_object. destruct (get_bucket s b) as [bk|] eqn:Eb; [|exact Hi].
+  destruct (bucket_rm bk (st_next s) k) as [[bk' n'] r] eqn:Ep. cbn [fst].
+  destruct (bucket_rm_ok _ _ _ _ _ _ (inv_get_bucket _ _ _ Hi Eb) Ep) as [H1 H2].
+  apply inv_set; assumption.
+Qed.
+
+Lemma delete_object_version_inv s b k id : Inv s -> Inv (fst (delete_object_version s b k id)).
+Proof.
+  intros Hi. unfold delete_object_version. destruct (get_bucket s b) as [bk|] eqn:Eb; [|exact Hi].
+  destruct (bucket_rm_version bk k id) as [bk' r] eqn:Ep. cbn [fst].
+  pose proof (bucket_rm_version_ok _ _ _ _ _ _ (inv_get_bucket _ _ _ Hi Eb) Ep) as H1.
+  apply inv_set; [exact Hi|lia|exact H1].
+Qed.
+
+Lemma delete_multi_inv s b ks : Inv s -> Inv (delete_multi s b ks).
+Proof.
+  revert s. induction ks as [|[k [id|]] ks IH]; intros s Hi; cbn [delete_multi].
+  - exact Hi.
+  - apply IH. apply delete_object_version_inv. exact Hi.
+  - apply IH. apply delete_object_inv. exact Hi.
+Qed.
+
+Lemma set_versioning_inv s b en : Inv s -> Inv (fst (set_versioning s b en)).
+Proof.
+  intros Hi. unfold set_versioning. destruct (get_bucket s b) as [bk|] eqn:Eb; [|exact Hi].
+  cbn [fst]. unfold set_bucket. apply inv_set; [exact Hi|lia|].
+  destruct (inv_get_bucket _ _ _ Hi Eb) as (Hs & Ho & Hn).
+  split; [exact Hs|]. split; [exact Ho|].
+  intros Hv0. cbn [b_ver b_objs] in *. apply Hn.
+  destruct en; [discriminate|]. destruct (b_ver bk); [reflexivity|discriminate|discriminate].
+Qed.
+
+Lemma ensure_bucket_inv c s b : Inv s -> Inv (fst (ensure_bucket c s b)).
+Proof.
+  intros Hi. unfold ensure_bucket. destruct (get_bucket s b); [exact Hi|].
+  destruct (cfg_auto_bucket c); [|exact Hi]. cbn [fst]. apply create_bucket_inv. exact Hi.
+Qed.
 
 (* every operation, in every configuration, preserves the invariant *)
 Lemma step_inv c s o : Inv s -> Inv (fst (step c s o)).
 Proof.
-Admitted.
+  intros Hi. destruct o; cbn [step].
+  - (* create *) destruct (negb (validate b)); [exact Hi|].
+    pose proof (create_bucket_inv s b Hi) as H.
+    destruct (create_bucket s b) as [s' [e|]]; exact H.
+  - (* delete bucket *)
+    pose proof (ensure_bucket_inv c s b Hi) as H1.
+    destruct (ensure_bucket c s b) as [s1 [e|]]; [exact H1|]. cbn [fst] in H1.
+    pose proof (delete_bucket_inv s1 b H1) as H2.
+    destruct (delete_bucket s1 b) as [s2 [e|]]; exact H2.
+  - pose proof (ensure_bucket_inv c s b Hi) as H1.
+    destruct (ensure_bucket c s b) as [s1 [e|]]; exact H1.
+  - exact Hi.
+  - (* put *)
+    pose proof (ensure_bucket_inv c s b Hi) as H1.
+    destruct (ensure_bucket c s b) as [s1 [e|]]; [exact H1|]. cbn [fst] in H1.
+    pose proof (put_object_inv s1 b k body m H1) as H2.
+    destruct (put_object s1 b k body m) as [s2 [[e|] vid]]; exact H2.
+  - (* get *)
+    pose proof (ensure_bucket_inv c s b Hi) as H1.
+    destruct (ensure_bucket c s b) as [s1 [e|]]; [exact H1|]. cbn [fst] in H1.
+    destruct vid as [id|].
+    + destruct (negb (cfg_versioned c)); [exact H1|].
+      destruct (get_object_version s1 b k id) as [e|v sv]; [exact H1|].
+      destruct (vd_marker v); exact H1.
+    + destruct (get_object s1 b k); exact H1.
+  - (* head *)
+    pose proof (ensure_bucket_inv c s b Hi) as H1.
+    destruct (ensure_bucket c s b) as [s1 [e|]]; [exact H1|]. cbn [fst] in H1.
+    destruct vid as [id|].
+    + destruct (negb (cfg_versioned c)); [exact H1|].
+      destruct (get_object_version s1 b k id) as [e|v sv]; [exact H1|].
+      destruct (vd_marker v); exact H1.
+    + destruct (get_object s1 b k); exact H1.
+  - (* delete *)
+    pose proof (ensure_bucket_inv c s b Hi) as H1.
+    destruct (ensure_bucket c s b) as [s1 [e|]]; [exact H1|]. cbn [fst] in H1.
+    pose proof (delete_object_inv s1 b k H1) as H2.
+    destruct (delete_object s1 b k) as [s2 [[e|] [mk vid]]]; exact H2.
+  - (* delete version *)
+    destruct (negb (cfg_versioned c)); [exact Hi|].
+    pose proof (ensure_bucket_inv c s b Hi) as H1.
+    destruct (ensure_bucket c s b) as [s1 [e|]]; [exact H1|]. cbn [fst] in H1.
+    pose proof (delete_object_version_inv s1 b k vid H1) as H2.
+    destruct (delete_object_version s1 b k vid) as [s2 [[e|] [mk vid']]]; exact H2.
+  - (* multi delete *)
+    pose proof (ensure_bucket_inv c s b Hi) as H1.
+    destruct (ensure_bucket c s b) as [s1 [e|]]; [exact H1|]. cbn [fst] in H1.
+    cbn [fst]. apply delete_multi_inv. exact H1.
+  - (* copy *)
+    pose proof (ensure_bucket_inv c s b Hi) as H1.
+    destruct (ensure_bucket c s b) as [s1 [e|]]; [exact H1|]. cbn [fst] in H1.
+    destruct (get_object s1 sb sk) as [e|v sv]; [exact H1|].
+    pose proof (put_object_inv s1 b k (vd_body v) (vd_meta v) H1) as H2.
+    destruct (put_object s1 b k (vd_body v) (vd_meta v)) as [s2 [[e|] vid]]; exact H2.
+  - (* set versioning *)
+    pose proof (ensure_bucket_inv c s b Hi) as H1.
+    destruct (ensure_bucket c s b) as [s1 [e|]]; [exact H1|]. cbn [fst] in H1.
+    destruct (negb (cfg_versioned c)); [exact H1|].
+    pose proof (set_versioning_inv s1 b enable H1) as H2.
+    destruct (set_versioning s1 b enable) as [s2 [e|]]; exact H2.
+  - (* list *)
+    pose proof (ensure_bucket_inv c s b Hi) as H1.
+    destruct (ensure_bucket c s b) as [s1 [e|]]; [exact H1|]. cbn [fst] in H1.
+    cbv zeta.
+    destruct ((has_marker || negb (beq marker []) || negb (maxkeys =? 0)) && negb (cfg_pages c) && cfg_fail_unimpl_page c);
+      [exact H1|].
+    destruct (if (has_marker || negb (beq marker []) || negb (maxkeys =? 0)) && negb (cfg_pages c)
+              then ([], 0) else (marker, maxkeys)) as [mk' mx'].
+    destruct (list_bucket s1 b pre delim mk' mx'); exact H1.
+Qed.
+
+Lemma run_inv_gen c ops s : Inv s -> Inv (fst (run c s ops)).
+Proof.
+  revert s. induction ops as [|o ops IH]; intros s Hi; cbn [run]; [exact Hi|].
+  pose proof (step_inv c s o Hi) as H1. destruct (step c s o) as [s1 r]. cbn [fst] in H1.
+  pose proof (IH s1 H1) as H2. destruct (run c s1 ops) as [s2 rs]. exact H2.
+Qed.
 
 Lemma run_inv c ops : Inv (fst (run c init ops)).
+Proof. apply run_inv_gen. apply inv_init. Qed.
+
+(* error codes produced by the backend operations *)
+Lemma ensure_bucket_err c s b s1 e :
+  ensure_bucket c s b = (s1, Some e) -> e = ENoSuchBucket /\ s1 = s.
 Proof.
-Admitted.
+  unfold ensure_bucket. destruct (get_bucket s b); [discriminate|].
+  destruct (cfg_auto_bucket c); [discriminate|]. intros H; inversion H; auto.
+Qed.
+
+Lemma ensure_bucket_ok c s b s1 :
+  ensure_bucket c s b = (s1, None) -> exists bk, get_bucket s1 b = Some bk.
+Proof.
+  unfold ensure_bucket. destruct (get_bucket s b) as [bk|] eqn:Eb.
+  - intros H; inversion H; subst. eauto.
+  - destruct (cfg_auto_bucket c); [|discriminate]. intros H; inversion H; subst; clear H.
+    unfold create_bucket. rewrite Eb. cbn [fst]. rewrite get_bucket_set_eq. eauto.
+Qed.
+
+Lemma create_bucket_err s b s1 e :
+  create_bucket s b = (s1, Some e) -> e = EBucketAlreadyExists /\ s1 = s.
+Proof.
+  unfold create_bucket. destruct (get_bucket s b); [|discriminate].
+  intros H; inversion H; auto.
+Qed.
+
+Lemma delete_bucket_err s b s1 e :
+  delete_bucket s b = (s1, Some e) -> (e = ENoSuchBucket \/ e = EBucketNotEmpty) /\ s1 = s.
+Proof.
+  unfold delete_bucket. destruct (get_bucket s b) as [bk|].
+  - destruct (b_objs bk); [discriminate|]. intros H; inversion H; auto.
+  - intros H; inversion H; auto.
+Qed.
+
+Lemma put_object_err s b k body m s1 e r :
+  put_object s b k body m = (s1, (Some e, r)) -> e = ENoSuchBucket /\ s1 = s.
+Proof.
+  unfold put_object. destruct (get_bucket s b) as [bk|].
+  - destruct (bucket_put bk (st_next s) k false body m) as [[bk' n'] id]. discriminate.
+  - intros H; inversion H; auto.
+Qed.
+
+Lemma delete_object_err s b k s1 e r :
+  delete_object s b k = (s1, (Some e, r)) -> e = ENoSuchBucket /\ s1 = s.
+Proof.
+  unfold delete_object. destruct (get_bucket s b) as [bk|].
+  - destruct (bucket_rm bk (st_next s) k) as [[bk' n'] r']. discriminate.
+  - intros H; inversion H; auto.
+Qed.
+
+Lemma delete_object_version_err s b k id s1 e r :
+  delete_object_version s b k id = (s1, (Some e, r)) -> e = ENoSuchBucket /\ s1 = s.
+Proof.
+  unfold delete_object_version. destruct (get_bucket s b) as [bk|].
+  - destruct (bucket_rm_version bk k id) as [bk' r']. discriminate.
+  - intros H; inversion H; auto.
+Qed.
+
+Lemma set_versioning_err s b en s1 e :
+  set_versioning s b en = (s1, Some e) -> e = ENoSuchBucket /\ s1 = s.
+Proof.
+  unfold set_versioning. destruct (get_bucket s b) as [bk|]; [discriminate|].
+  intros H; inversion H; auto.
+Qed.
+
+Lemma get_object_no_panic s b k : Inv s -> get_object s b k <> OErr EPanic.
+Proof.
+  intros Hi. unfold get_object. destruct (get_bucket s b) as [bk|] eqn:Eb; [|discriminate].
+  destruct (sm_get k (b_objs bk)) as [o|] eqn:Eg; [|discriminate].
+  destruct (bucket_ok_get _ _ _ _ (inv_get_bucket _ _ _ Hi Eb) Eg) as (cur & Hd & _).
+  rewrite Hd. destruct (vd_marker cur); discriminate.
+Qed.
+
+Lemma get_object_version_no_panic s b k id : get_object_version s b k id <> OErr EPanic.
+Proof.
+  unfold get_object_version. destruct (get_bucket s b) as [bk|]; [|discriminate].
+  destruct (sm_get k (b_objs bk)) as [o|]; [|discriminate].
+  destruct (o_data o) as [cur|].
+  - destruct (N.eqb (vd_vid cur) id); [discriminate|].
+    destruct (vers_get id (o_vers o)); discriminate.
+  - destruct (vers_get id (o_vers o)); discriminate.
+Qed.
+
+Lemma scan_no_panic pre delim maxkeys items :
+  (forall k o, In (k, o) items -> o_data o <> None) ->
+  forall cnt lastp acc, lr_panic acc = false ->
+  lr_panic (scan pre delim maxkeys items cnt lastp acc) = false.
+Proof.
+  induction items as [|[k o] rest IH]; intros Hall cnt lastp acc Hacc; cbn [scan]; [exact Hacc|].
+  assert (Hrest : forall k0 o0, In (k0, o0) rest -> o_data o0 <> None).
+  { intros k0 o0 Hin. apply (Hall k0 o0). right. exact Hin. }
+  specialize (IH Hrest).
+  destruct (o_data o) as [v|] eqn:Ed.
+  2:{ exfalso. apply (Hall k o); [left; reflexivity|exact Ed]. }
+  cbv zeta.
+  destruct (prefix_match pre delim k) as [| |p].
+  - apply IH. exact Hacc.
+  - destruct (vd_marker v); [apply IH; exact Hacc|].
+    destruct ((0 <? maxkeys) && (maxkeys <=? cnt + 1)); [reflexivity|].
+    apply IH. reflexivity.
+  - destruct (vd_marker v); [apply IH; exact Hacc|].
+    destruct (match lastp with Some q => beq p q | None => false end); [apply IH; exact Hacc|].
+    destruct ((0 <? maxkeys) && (maxkeys <=? cnt + 1)).
+    + destruct (skip_group pre delim p k rest) as [nm rest']. reflexivity.
+    + apply IH. reflexivity.
+Qed.
+
+Lemma list_bucket_no_panic s b pre delim marker maxkeys r :
+  Inv s -> list_bucket s b pre delim marker maxkeys = Some r -> lr_panic r = false.
+Proof.
+  intros Hi. unfold list_bucket. destruct (get_bucket s b) as [bk|] eqn:Eb; [|discriminate].
+  intros H; inversion H; subst; clear H.
+  pose proof (inv_get_bucket _ _ _ Hi Eb) as (_ & Ho & _).
+  apply scan_no_panic; [|reflexivity].
+  intros k o Hin Hnone.
+  assert (Hin' : In (k, o) (b_objs bk)).
+  { destruct marker; [exact Hin|]. eapply in_after_inv. exact Hin. }
+  destruct (Ho _ _ Hin') as (cur & Hd & _). congruence.
+Qed.
 
 (* no nil dereference: with the invariant, no request is answered by a panic *)
 Lemma step_no_panic c s o : Inv s -> snd (step c s o) <> RErr EPanic.
 Proof.
-Admitted.
+  intros Hi. destruct o; cbn [step].
+  - (* create *) destruct (negb (validate b)); [discriminate|].
+    destruct (create_bucket s b) as [s' [e|]] eqn:Ec; [|discriminate].
+    apply create_bucket_err in Ec. destruct Ec as [-> _]. discriminate.
+  - (* delete bucket *)
+    destruct (ensure_bucket c s b) as [s1 [e|]] eqn:Ee.
+    { apply ensure_bucket_err in Ee. destruct Ee as [-> _]. discriminate. }
+    destruct (delete_bucket s1 b) as [s2 [e|]] eqn:Ed; [|discriminate].
+    apply delete_bucket_err in Ed. destruct Ed as [[-> | ->] _]; discriminate.
+  - destruct (ensure_bucket c s b) as [s1 [e|]] eqn:Ee; [|discriminate].
+    apply ensure_bucket_err in Ee. destruct Ee as [-> _]. discriminate.
+  - discriminate.
+  - (* put *)
+    destruct (ensure_bucket c s b) as [s1 [e|]] eqn:Ee.
+    { apply ensure_bucket_err in Ee. destruct Ee as [-> _]. discriminate. }
+    destruct (put_object s1 b k body m) as [s2 [[e|] vid]] eqn:Ep; [|discriminate].
+    apply put_object_err in Ep. destruct Ep as [-> _]. discriminate.
+  - (* get *)
+    pose proof (ensure_bucket_inv c s b Hi) as H1.
+    destruct (ensure_bucket c s b) as [s1 [e|]] eqn:Ee.
+    { apply ensure_bucket_err in Ee. destruct Ee as [-> _]. discriminate. }
+    cbn [fst] in H1. destruct vid as [id|].
+    + destruct (negb (cfg_versioned c)); [discriminate|].
+      pose proof (get_object_version_no_panic s1 b k id) as Hv.
+      destruct (get_object_version s1 b k id) as [e|v sv]; [cbn [snd]; congruence|].
+      destruct (vd_marker v); discriminate.
+    + pose proof (get_object_no_panic s1 b k H1) as Hg.
+      destruct (get_object s1 b k); [cbn [snd]; congruence|discriminate].
+  - (* head *)
+    pose proof (ensure_bucket_inv c s b Hi) as H1.
+    destruct (ensure_bucket c s b) as [s1 [e|]] eqn:Ee.
+    { apply ensure_bucket_err in Ee. destruct Ee as [-> _]. discriminate. }
+    cbn [fst] in H1. destruct vid as [id|].
+    + destruct (negb (cfg_versioned c)); [discriminate|].
+      pose proof (get_object_version_no_panic s1 b k id) as Hv.
+      destruct (get_object_version s1 b k id) as [e|v sv]; [cbn [snd]; congruence|].
+      destruct (vd_marker v); discriminate.
+    + pose proof (get_object_no_panic s1 b k H1) as Hg.
+      destruct (get_object s1 b k); [cbn [snd]; congruence|discriminate].
+  - (* delete *)
+    destruct (ensure_bucket c s b) as [s1 [e|]] eqn:Ee.
+    { apply ensure_bucket_err in Ee. destruct Ee as [-> _]. discriminate. }
+    destruct (delete_object s1 b k) as [s2 [[e|] [mk vid]]] eqn:Ep; [|discriminate].
+    apply delete_object_err in Ep. destruct Ep as [-> _]. discriminate.
+  - (* delete version *)
+    destruct (negb (cfg_versioned c)); [discriminate|].
+    destruct (ensure_bucket c s b) as [s1 [e|]] eqn:Ee.
+    { apply ensure_bucket_err in Ee. destruct Ee as [-> _]. discriminate. }
+    destruct (delete_object_version s1 b k vid) as [s2 [[e|] [mk vid']]] eqn:Ep; [|discriminate].
+    apply delete_object_version_err in Ep. destruct Ep as [-> _]. discriminate.
+  - (* multi delete *)
+    destruct (ensure_bucket c s b) as [s1 [e|]] eqn:Ee; [|discriminate].
+    apply ensure_bucket_err in Ee. destruct Ee as [-> _]. discriminate.
+  - (* copy *)
+    pose proof (ensure_bucket_inv c s b Hi) as H1.
+    destruct (ensure_bucket c s b) as [s1 [e|]] eqn:Ee.
+    { apply ensure_bucket_err in Ee. destruct Ee as [-> _]. discriminate. }
+    cbn [fst] in H1.
+    pose proof (get_object_no_panic s1 sb sk H1) as Hg.
+    destruct (get_object s1 sb sk) as [e|v sv]; [cbn [snd]; congruence|].
+    destruct (put_object s1 b k (vd_body v) (vd_meta v)) as [s2 [[e|] vid]] eqn:Ep; [|discriminate].
+    apply put_object_err in Ep. destruct Ep as [-> _]. discriminate.
+  - (* set versioning *)
+    destruct (ensure_bucket c s b) as [s1 [e|]] eqn:Ee.
+    { apply ensure_bucket_err in Ee. destruct Ee as [-> _]. discriminate. }
+    destruct (negb (cfg_versioned c)); [destruct enable; discriminate|].
+    destruct (set_versioning s1 b enable) as [s2 [e|]] eqn:Ep; [|discriminate].
+    apply set_versioning_err in Ep. destruct Ep as [-> _]. discriminate.
+  - (* list *)
+    pose proof (ensure_bucket_inv c s b Hi) as H1.
+    destruct (ensure_bucket c s b) as [s1 [e|]] eqn:Ee.
+    { apply ensure_bucket_err in Ee. destruct Ee as [-> _]. discriminate. }
+    cbn [fst] in H1. cbv zeta.
+    destruct ((has_marker || negb (beq marker []) || negb (maxkeys =? 0)) && negb (cfg_pages c) && cfg_fail_unimpl_page c);
+      [discriminate|].
+    destruct (if (has_marker || negb (beq marker []) || negb (maxkeys =? 0)) && negb (cfg_pages c)
+              then ([], 0) else (marker, maxkeys)) as [mk' mx'].
+    destruct (list_bucket s1 b pre delim mk' mx') as [r|] eqn:El; [|discriminate].
+    rewrite (list_bucket_no_panic _ _ _ _ _ _ _ H1 El). discriminate.
+Qed.
 
 (* ---- C02 laws (handler level, any configuration) ---- *)
 
